@@ -1,8 +1,100 @@
 import Xp.Drv.C01
 import Xp.Drv.C04
+import Xp.Model.C03
 namespace Xp.C03
+open Lean (Json)
 open Xp.IOx
-/-- C03 scenarios are either XR worlds (C01 model) or pipelines (C04 model). -/
+
+/-! The fetch family (harness/main/c03_fetch.go): one `RunFunction` of the real
+FetchingFunctionRunner + ExistingExtraResourcesFetcher under a fault plan, replayed on
+`runFunctionP`. -/
+
+structure Answer where
+  err : Bool
+  fatal : Bool
+  reqs : Option Reqs
+
+def selOfJ (j : Json) : Option Selector :=
+  if j.isNull then none else
+  let kind := str j "kind"
+  match str j "match" with
+  | "name" => some ⟨kind, .name (str j "name")⟩
+  | "labels" => some ⟨kind, .labels (Xp.C04.kvsOf j "labels")⟩
+  | _ => some ⟨kind, .unset⟩
+
+def answerOf (j : Json) : Answer :=
+  let rs : Reqs := ((arr j "reqs").map fun r => (str r "key", selOfJ (obj r "sel"))).mergeSort (fun a b => a.1 ≤ b.1)
+  ⟨bool j "err", bool j "fatal", if bool j "hasReqs" then some rs else none⟩
+
+/-- the scripted function: finds its call index in the context, answers with that entry of the
+script (the last one from then on) and hands the next index back through the context -/
+def scripted (answers : List Answer) : XFn := fun rq =>
+  let i := ((rq.ctx.lookup "n").bind String.toNat?).getD 0
+  match answers[min i (answers.length - 1)]? with
+  | none => none
+  | some a =>
+    if a.err then none else
+    some ⟨{ desired := rq.desired, xrReady := none, ctx := [("n", toString (i + 1))], reqs := [],
+            results := if a.fatal then [{ sev := .normal, msg := "fine", claim := false }, { sev := .fatal, msg := "fatal", claim := false }] else [],
+            conds := [] }, a.reqs⟩
+
+def freqStr : FReq → String
+  | .getExtra k n => s!"get {k}/{n}"
+  | .listExtra k _ => s!"list {k}"
+
+def fcallStr (e : FReq × Outcome × Option FResp) : String :=
+  let err := match e.2.1, e.2.2 with
+    | .crashBefore, _ | .crashAfter, _ => "crashed"
+    | _, some .notFound => "notFound"
+    | _, some .err => "other"
+    | _, _ => ""
+  s!"{freqStr e.1} {Xp.C01.outcomeStr e.2.1}>{err}"
+
+def fetchHandler : Handler := fun scn => do
+  let cluster := (arr scn "cluster").map fun j => (⟨str j "kind", str j "name", Xp.C04.kvsOf j "labels"⟩ : Xp.C04.ClusterObj)
+  let answers := (arr scn "answers").map answerOf
+  -- Go's map order over the requirements of each fetching round, as observed (hint); round i is
+  -- answered with entry min(i, last) of the script
+  let orders : List (Reqs × List String) := (arr scn "orders").map fun j =>
+    (((answers[min (nat j "round") (answers.length - 1)]?).bind (·.reqs)).getD [], strs j "keys")
+  -- the model's order is a function of the requirements: the same requirements visited in two
+  -- different map orders in one scenario cannot be replayed
+  for a in orders do
+    for b in orders do
+      if a.1 == b.1 && a.2 != b.2 then
+        throw "the same requirements were visited in two different map orders"
+  let order : Reqs → Reqs := fun rs =>
+    match orders.find? (fun h => h.1 == rs) with
+    | some h => Xp.C01.orderBy (·.1) h.2 rs
+    | none => rs
+  let plan : Plan := if has scn "fault" then
+      let f := obj scn "fault"
+      Plan.at (nat f "k") (Xp.C01.outcomeOf (str f "o"))
+    else Plan.allOk
+  let req : Xp.C04.Request := { observed := [], desired := [], xrReady := none, ctx := [], extra := [], input := "", creds := [] }
+  let prog := runFunctionTop (scripted answers) order req
+  let log := callLog fsem plan 0 prog cluster
+  let res := (run fsem plan 0 prog cluster).2
+  let (reqs, result) : List Xp.C04.Request × String := match res with
+    | none => ([], "crashed")
+    | some (tr, .err) => (tr, "err")
+    | some (tr, .ok rsp) => (tr, "ok:" ++ (rsp.base.ctx.lookup "n").getD "")
+  let reqJ (r : Xp.C04.Request) : Json := Json.mkObj [
+    ("n", .str ((r.ctx.lookup "n").getD "")),
+    ("extra", Json.arr ((r.extra.mergeSort (fun a b => a.1 ≤ b.1)).map fun p => Json.mkObj [
+      ("key", .str p.1), ("nil", .bool p.2.isNone),
+      ("names", Json.arr (((p.2.getD []).mergeSort (· ≤ ·)).map Json.str).toArray)]).toArray)]
+  -- model-side verdict: the clauses proved in Props (accepted ⇒ fatal or stable; bounded)
+  let ok := reqs.length ≤ Xp.Gen.c03MaxRequirementsIterations + 1
+  return (Json.mkObj [
+      ("calls", Json.arr (log.map fun e => Json.str (fcallStr e)).toArray),
+      ("reqs", Json.arr (reqs.map reqJ).toArray),
+      ("result", .str result)], ok, if ok then "" else "C03:function-called-beyond-bound")
+
+/-- C03 scenarios are XR worlds (C01 model), pipelines (C04 model) or single RunFunction calls. -/
 def handler : Handler := fun scn =>
-  if has scn "steps" then Xp.C04.handler scn else Xp.C01.handler scn
+  -- the direct family (harness/main/c03_direct.go) is monitor-only: nothing to compare
+  if has scn "direct" then pure (Json.mkObj [], true, "")
+  else if has scn "fetch" then fetchHandler scn
+  else if has scn "steps" then Xp.C04.handler scn else Xp.C01.handler scn
 end Xp.C03
